@@ -17,6 +17,8 @@ for c in $CH; do
 [$c] $out"
 done
 git -C /repo checkout -- . ; git -C /repo clean -qfd >/dev/null
+# the evidence written by a run against a changed tree is not evidence of the unchanged tree
+for c in $P $EXTRA $CH; do git -C /verif checkout -q -- evidence/$c.json 2>/dev/null; done
 python3 - "$D/meta.json" "$res" <<'PY'
 import json,sys
 m=json.load(open(sys.argv[1]))
